@@ -15,9 +15,9 @@ out = ["### 8.4 Seeded changes (written by independent sub-agents; `seeded/<id>/
        "Each sub-agent received only the text of one property and its own scratch worktree of /repo (nothing from /verif), and",
        "returned a change that still passes the 55 repository tests plus a demonstration script.  Every change was confirmed",
        "with `tools/seedcheck.sh` (demo PASS on the unmodified tree, tests pass with the change, demo FAIL with the change) and",
-       "then the property's quick check was run against the changed worktree (`VERIF_REPO=<worktree>`).  Eight rounds (a: free",
+       "then the property's quick check was run against the changed worktree (`VERIF_REPO=<worktree>`).  Nine rounds (a: free",
        "choice, b: a named focus area per property, c: \"not the obvious place\", d: disguised as a performance / clean-up",
-       "commit, e: needs an exact coincidence a random generator would not produce, f: in a rarely executed branch or environment-dependent path, g: an interaction of two options, sections, calls or argument types, h: a well-meant normalisation or leniency), %d changes: %d were reported by the check as it" % (len(rows), len(rows) - len(missed)),
+       "commit, e: needs an exact coincidence a random generator would not produce, f: in a rarely executed branch or environment-dependent path, g: an interaction of two options, sections, calls or argument types, h: a well-meant normalisation or leniency, i: at a limit or in a numeric / positional detail), %d changes: %d were reported by the check as it" % (len(rows), len(rows) - len(missed)),
        "stood at the time, %d were missed and led to the strengthening noted per seed in `meta.json` (`history`); after that all" % len(missed),
        "%d are reported by the quick tier at seed 0 (`tools/reseed.sh` re-applies every patch to a fresh worktree and re-checks)." % len(rows),
        "",
@@ -51,6 +51,11 @@ out += ["",
         "* *values that invite tidying*: unset / all-nines time stamps, text that Unicode normalisation would rewrite, blanks at",
         "  the edges and doubled inside strings, payloads that look like padding, empty descriptions, names with comment",
         "  markers, rows that repeat, duplicate list items, exceptions without a message - all of it is data to be shown as stored;",
+        "* *limits on purpose*: 128+ and 255 sections, sections beyond 32 KiB, callout subsections beyond 4096 words, files beyond",
+        "  16 KiB and 64 KiB, documents of exactly n x 64 KiB, 32-character reference codes, hashes beyond 32 bits, the values",
+        "  0 / 0xFFFFFFFF first in a log, catch-all patterns - sizes a random generator reaches once in 2^16 tries or never;",
+        "* a relational check (output with junk = output without) is blind to state that BOTH of its runs inherit: evaluate the",
+        "  two sides in processes of their own, and let the junk be a *sibling* of the good input (same component, other routing);",
         "* an exception escaping the decoder under test is a violation to report, never a crashed shard;",
         "* do not accept two readings where the code base has one (declared trace-buffer size inside an entry).",
         "",
